@@ -91,48 +91,17 @@ pub fn check_op(op: &DiffOp) -> Result<u64, String> {
             op, old, new, got, want
         ));
     }
-    // the same expansion consumed through nth / skip / step_by / last / count, and size_hint
-    // must be a valid bound (Iterator contract)
+    // the same expansion however the iterator is consumed (nth / skip / step_by / last / count /
+    // take-then-rest / peekable / find ...), and size_hint must be a valid bound (Iterator contract)
     {
-        let len = want.len();
-        let r = subject(|| -> Result<(), String> {
-            let (lo, hi) = op.iter_changes(&old[..], &new[..]).size_hint();
-            if lo > len || hi.map_or(false, |h| h < len) {
-                return Err(format!("size_hint() = ({}, {:?}) but the expansion has {} changes", lo, hi, len));
-            }
-            if op.iter_changes(&old[..], &new[..]).count() != len {
-                return Err("count() disagrees with the number of changes".into());
-            }
-            let last = op.iter_changes(&old[..], &new[..]).last().map(|c| flat(&c));
-            if last != want.last().copied() {
-                return Err(format!("last() gives {:?}, expected {:?}", last, want.last()));
-            }
-            for k in 0..=len + 1 {
-                let mut it = op.iter_changes(&old[..], &new[..]);
-                let got = it.nth(k).map(|c| flat(&c));
-                if got != want.get(k).copied() {
-                    return Err(format!("nth({}) gives {:?}, expected {:?}", k, got, want.get(k)));
-                }
-                // whatever follows a jump must continue the same sequence
-                let rest: Vec<_> = it.map(|c| flat(&c)).collect();
-                let want_rest: &[_] = if k + 1 <= len { &want[k + 1..] } else { &[] };
-                if rest[..] != *want_rest {
-                    return Err(format!("after nth({}) the iterator yields {:?}, expected {:?}", k, rest, want_rest));
-                }
-                let skipped: Vec<_> = op.iter_changes(&old[..], &new[..]).skip(k).map(|c| flat(&c)).collect();
-                let want_skip: &[_] = if k <= len { &want[k..] } else { &[] };
-                if skipped[..] != *want_skip {
-                    return Err(format!("skip({}) yields {:?}, expected {:?}", k, skipped, want_skip));
-                }
-            }
-            for step in 1..=3usize {
-                let got: Vec<_> = op.iter_changes(&old[..], &new[..]).step_by(step).map(|c| flat(&c)).collect();
-                let w: Vec<_> = want.iter().copied().step_by(step).collect();
-                if got != w {
-                    return Err(format!("step_by({}) yields {:?}, expected {:?}", step, got, w));
-                }
-            }
-            Ok(())
+        let r = subject(|| {
+            consumption_modes(&|| "iter_changes".into(), || op.iter_changes(&old[..], &new[..]), |c| flat(&c)).and_then(|_| {
+                consumption_modes(
+                    &|| "iter_slices".into(),
+                    || op.iter_slices(&old[..], &new[..]),
+                    |(t, s)| (t, s.as_ptr() as usize, s.len()),
+                )
+            })
         })
         .map_err(|p| format!("{:?}: iterator adaptors: panic: {}", op, p))?;
         r.map_err(|e| format!("{:?} over old={:?} new={:?}: {}", op, old, new, e))?;
